@@ -27,6 +27,8 @@ ASSUMPTIONS = ['pandas DataFrame construction is trusted', 'weights are compared
 DOMAINS = {'BA': (['B', 'A'], [2, 3]), 'ABC1': (['A', 'B', 'C'], [1, 2, 3]), 'CAB': (['C', 'A', 'B'], [2, 2, 2])}
 WEIGHTS = ['none', 'ones', 'mixed', 'zero']
 FRAMES = ['plain', 'extra-column', 'shuffled-columns']
+# laws only: integer attribute names whose text order differs from their numeric order
+LAW_DOMAINS = {'INTS': ([10, 2, 33, 4], [2, 3, 2, 2])}
 
 
 def bounds(tier):
@@ -53,6 +55,7 @@ def jobs(tier, seed):
         for i in range(0, n, 10):
             out.append({'dom': dn, 'lo': i, 'hi': min(n, i + 10), 'tier': tier})
         out.append({'dom': dn, 'laws': True, 'tier': tier})
+    out += [{'dom': dn, 'laws': True, 'tier': tier} for dn in LAW_DOMAINS]
     return out
 
 
@@ -105,7 +108,13 @@ def dataset_case(acc, dn, recs, wkind, frame):
     v2 = ds.datavector(flatten=False)
     if v2.shape != full.shape or not O.close(v2, full, 1e-12, 0):
         fails.append('datavector(flatten=False) has shape %r / differs' % (v2.shape,))
-    acc.evals += 2
+    # the caller edits the table it was handed in place; the dataset must still vectorise to its contingency table
+    v2 *= 0.0
+    v2 += 7.0
+    v3 = ds.datavector()
+    if v3.shape != (full.size,) or not O.close(v3, full.flatten(), 1e-12, 0):
+        fails.append('datavector() after the caller modified an earlier datavector(flatten=False) result: %r vs %r' % (v3.tolist(), full.flatten().tolist()))
+    acc.evals += 3
     for r in range(1, len(attrs) + 1):
         for t in itertools.permutations(attrs, r):
             forms = [list(t), tuple(t)] + ([t[0]] if r == 1 else [])
@@ -191,7 +200,7 @@ def dtype_cases(acc):
 
 def domain_laws(acc, dn):
     from mbi import Domain
-    attrs, shape = DOMAINS[dn]
+    attrs, shape = DOMAINS.get(dn) or LAW_DOMAINS[dn]
     cfg = dict(zip(attrs, shape))
     dom = Domain(attrs, shape)
     fails = []
@@ -217,16 +226,17 @@ def domain_laws(acc, dn):
         chk(tuple(dom.axes(t)) == tuple(attrs.index(a) for a in t), 'axes(%r)' % (t,))
         chk(dom.size(list(t)) == int(np.prod([cfg[a] for a in t])) if t else dom.size(list(t)) == 1, 'size(%r)' % (t,))
         chk(dom.contains(p) and (p.contains(dom) == (set(t) == set(attrs))), 'contains(%r)' % (t,))
-        s = p.sort('size')
-        exp = sorted(t, key=lambda a: cfg[a])
-        chk(s.attrs == tuple(exp) and s.shape == tuple(cfg[a] for a in exp), "sort('size') of %r -> %r" % (t, s))
+        if all(isinstance(a, str) for a in attrs):    # sort('size') looks attributes up one by one: only string names are accepted there
+            s = p.sort('size')
+            exp = sorted(t, key=lambda a: cfg[a])
+            chk(s.attrs == tuple(exp) and s.shape == tuple(cfg[a] for a in exp), "sort('size') of %r -> %r" % (t, s))
         s = p.sort('name')
         chk(s.attrs == tuple(sorted(t)) and s.shape == tuple(cfg[a] for a in sorted(t)), "sort('name') of %r -> %r" % (t, s))
         for a in attrs:
             chk((a in p) == (a in t), '__contains__')
         for a in t:
             chk(p[a] == cfg[a], '__getitem__')
-        if len(t) == 1:
+        if len(t) == 1 and isinstance(t[0], str):
             chk(dom.project(t[0]).attrs == (t[0],), 'project(str)')
         for t2 in tl:
             q = dom.project(list(t2))
